@@ -463,7 +463,10 @@ Section Run.
               | Some f => Some (match run_fn f VUnit with Ok (VSome v) => Some v | _ => None end)
               | None => None
               end)
-             None None None None None None None
+             None
+             (* fn from_list(items) = FromMeta::from_list(items).map(R): what a `flatten` field calls *)
+             (Some (fun items => map_ok (fun v => VStruct [("0", v)]) (from_list (impl_of inner) items)))
+             None None None None None
     | TStructR c fields =>
         let convs := map (fun ft => impl_of (snd ft)) fields in
         mkFm None None
